@@ -48,8 +48,43 @@ def fields(s):
     return dict(kv.split("=", 1) for kv in s.split(" ") if "=" in kv)
 
 
+# Answers of the implementation's OWN exported matcher (NewNameMatcher/IsSupersetOf/IsMember on the
+# tree under test), so that the broker and proxy properties are evaluated against what the code's
+# matcher says, not against this file's reading of the rule syntax.
+FACTS = {}
+
+
+def ensure_facts(exe_nm, triples):
+    todo = sorted({t for t in triples if t not in FACTS})
+    if not todo:
+        return
+    rc, out, err = vlib.run_impl(exe_nm, ["%s nm %s %s %s" % ((AREA,) + t) for t in todo])
+    if rc != 0 or len(out) != len(todo):
+        raise RuntimeError("namematcher driver failed: " + err[-300:])
+    for t, o in zip(todo, out):
+        FACTS[t] = fields(o)
+
+
+def impl_judged_superset(a_hex, b_hex):
+    return FACTS[(a_hex, b_hex, "x")]["sup"] == "1"
+
+
+def impl_member(rule_hex, host_hex):
+    return FACTS[(rule_hex, rule_hex, host_hex)]["ma"] == "1"
+
+
+def facts_needed(line):
+    a = line.split(" ")
+    if a[1] == "poll":
+        eff = a[5] if a[4] == "s" else a[3]
+        return [(eff, a[2], "x")]
+    if a[1] in ("url", "urlfull") and a[5] == "P":
+        return [(a[2], a[2], a[7])]
+    return []
+
+
 def prop(line, impl, model):
-    """C06 evaluated on the implementation's own answers."""
+    """C06 evaluated on the implementation's own answers (ensure_facts must have been called for the line)."""
     a = line.split(" ")
     op = a[1]
     if impl.startswith("!panic") or impl == "!died":
@@ -69,7 +104,7 @@ def prop(line, impl, model):
     elif op == "poll":
         allowed, presumed, kind, pat = unhx(a[2]), unhx(a[3]), a[4], unhx(a[5])
         eff = pat if kind == "s" else presumed
-        sup = judged_superset(new_matcher(eff), new_matcher(allowed))
+        sup = impl_judged_superset(a[5] if kind == "s" else a[3], a[2])
         if impl == "accept":
             if not sup:
                 return ("broker registered a %s poll whose pattern %r is not a superset of the allowed pattern %r"
@@ -82,7 +117,6 @@ def prop(line, impl, model):
             return "poll with a superset pattern was not served: " + impl[:200]
     elif op in ("url", "urlfull"):
         pattern, allow, raw = unhx(a[2]), a[3] == "1", unhx(a[4])
-        m = new_matcher(pattern)
         parsed = None if a[5] == "E" else (unhx(a[6]), unhx(a[7]))
         toks = impl.split(" ")
         dec = toks[0]
@@ -92,7 +126,7 @@ def prop(line, impl, model):
             if parsed is None:
                 return "session proceeds although the relay URL %r does not parse" % raw
             if raw != b"":
-                if not member(m, parsed[1]):
+                if not impl_member(a[2], a[7]):
                     return "session proceeds with relay URL %r whose hostname %r fails the proxy's pattern %r" % (raw, parsed[1], pattern)
                 if not allow and parsed[0] != b"wss":
                     return "session proceeds with relay URL %r of scheme %r while non-TLS relays are not allowed" % (raw, parsed[0])
@@ -110,7 +144,7 @@ def prop(line, impl, model):
                         continue
                     if raw == b"":
                         return "broker sent no relay URL but the proxy dialled %r instead of its configured relay" % h
-                    if not member(m, h):
+                    if not impl_member(a[2], hx(h)):
                         return "proxy dialled relay host %r (URL %r) which fails its pattern %r" % (h, raw, pattern)
                     if not allow and sch != "https":
                         return "proxy dialled %r without TLS while non-TLS relays are not allowed" % raw
@@ -263,7 +297,7 @@ def gen_urls(ctx):
     """-> list of (raw url, kind, patterns to try it against)"""
     rng, thorough = ctx.rng, ctx.tier == "thorough"
     pool = url_pool()
-    out = [(u, "pool", URL_PATTERNS) for u in pool]
+    out = [(u, "pool", URL_PATTERNS if thorough else URL_PATTERNS[:5] + rng.sample(URL_PATTERNS[5:], 3)) for u in pool]
     derived = []
     for pat in URL_PATTERNS:          # hosts around each pattern's own suffix, so that many sessions proceed
         suf = new_matcher(pat)[1]
@@ -300,6 +334,7 @@ def run(ctx):
     # (ii) broker decision through IPC.ProxyPolls
     exe_br = vlib.go_test_build("./broker")
     lines, kinds = gen_poll(ctx)
+    ensure_facts(exe_nm, [t for l in lines for t in facts_needed(l)])
     ctx.correspond(exe_br, lines, kinds, label="broker-proxypolls", prop=prop, key_of=key_of, impl_args=TEST_ARGS)
     # (iii) proxy decision: library boundary first, then runSession / datachannelHandler
     exe_px = vlib.go_test_build("./proxy/lib")
@@ -316,10 +351,12 @@ def run(ctx):
             for allow in "01":
                 args = "%s %s %s %s" % (hx(pat), allow, raw, rest)
                 full.append("%s urlfull %s" % (AREA, args)); fkinds.append(kind + "-dial-monitored")
-                if rng.random() < 0.25:
+                if ctx.tier == "thorough" and rng.random() < 0.25:
                     cheap.append("%s url %s" % (AREA, args)); ckinds.append(kind)
-    ctx.correspond(exe_px, cheap, ckinds, label="proxy-runSession", prop=prop, key_of=key_of, impl_args=TEST_ARGS)
-    correspond_full(ctx, exe_px, full, fkinds)
+    ensure_facts(exe_nm, [t for l in cheap + full for t in facts_needed(l)])
+    if cheap:       # decision only (no data channel): thorough tier; every case is also run with the dial monitor below
+        ctx.correspond(exe_px, cheap, ckinds, label="proxy-runSession", prop=prop, key_of=key_of, impl_args=TEST_ARGS)
+    correspond_full(ctx, exe_px, exe_nm, full, fkinds)
 
 
 def full_class(impl):
@@ -335,9 +372,17 @@ def full_class(impl):
     return "proceed:configured" if hosts == {CONFIGURED_HOST} else "proceed:broker"
 
 
-def correspond_full(ctx, exe, lines, kinds):
+def dialled_hosts(line, impl):
+    d = fields(impl).get("dial", "none")
+    if d == "none" or "," not in d:
+        return []
+    return [(line.split(" ")[2], line.split(" ")[2], x.split(",")[1]) for x in d.split(";")]
+
+
+def correspond_full(ctx, exe, exe_nm, lines, kinds):
     model = vlib.run_model(lines)
     rc, impl, err = vlib.run_impl(exe, lines, args=TEST_ARGS)
+    ensure_facts(exe_nm, [t for l, r in zip(lines, impl) for t in dialled_hosts(l, r)])
     if rc != 0 or len(impl) != len(lines):
         idx = len(impl)
         ctx.violation("driver-crash", "implementation driver died (rc=%s) at case %d: %s" % (rc, idx, err[-600:]),
@@ -386,6 +431,8 @@ def replay(ctx, doc):
         m = vlib.run_model([case])[0]
         rc, r, err = vlib.run_impl(exe, [case], args=args)
         r = r[0] if r else "!died"
+        exe_nm = exes.setdefault("nm", vlib.go_build("./zz_verif/namematcher"))
+        ensure_facts(exe_nm, facts_needed(case) + (dialled_hosts(case, r) if op == "urlfull" else []))
         p = prop(case, r, m)
         print("case: %s\n model: %s\n impl:  %s\n property: %s" % (case[:300], m[:300], r[:300], p or "holds"))
         bad += 1 if p else 0
